@@ -5,6 +5,7 @@ import (
 	"fmt"
 	"net/url"
 	"os"
+	"path/filepath"
 	"runtime"
 	"strings"
 	"time"
@@ -204,16 +205,37 @@ func (c *Config) readFile() error {
 	return yaml.NewDecoder(f).Decode(c)
 }
 
-func (c *Config) writeFile() error {
-	f, err := os.OpenFile(c.path, os.O_RDWR|os.O_CREATE|os.O_TRUNC, 0644)
+func (c *Config) writeFile() (err error) {
+	// write a sibling temporary file and move it into place: a reader (or the next start after a crash)
+	// sees either the previous file or the complete new one
+	f, err := os.CreateTemp(filepath.Dir(c.path), filepath.Base(c.path)+".*.tmp")
 	if err != nil {
 		return fmt.Errorf("error opening config file for writing: %w", err)
 	}
-	defer f.Close()
-	defer f.Sync()
+	tmp := f.Name()
+	defer func() {
+		if err != nil {
+			f.Close()
+			os.Remove(tmp)
+		}
+	}()
 
 	encoder := yaml.NewEncoder(f)
 	encoder.SetIndent(2)
-	defer encoder.Close()
-	return encoder.Encode(c)
+	if err = encoder.Encode(c); err != nil {
+		return err
+	}
+	if err = encoder.Close(); err != nil {
+		return err
+	}
+	if err = f.Chmod(0644); err != nil {
+		return err
+	}
+	if err = f.Sync(); err != nil {
+		return err
+	}
+	if err = f.Close(); err != nil {
+		return err
+	}
+	return os.Rename(tmp, c.path)
 }
